@@ -286,23 +286,37 @@ def _exact(v, t) -> bool:
     return False
 
 
-def witnessed(t, values, path="$"):
+def witnessed(t, values, path="$", allow_any=False):
     """C05 lock-step walk.  `values` are all the runtime values observed at the position that
     `t` describes.  Returns None when tight, else a description of the first slack found."""
     if t is Any:
         # only acceptable as "element type of an empty container", which the caller checks
         return f"{path}: Any with {len(values)} observed value(s)" if values else None
     alts = list(t.__args__) if is_union(t) else [t]
-    remaining = list(values)
     for alt in alts:
         if alt is Any:
-            return f"{path}: Any as a union alternative"
-        mine = [v for v in remaining if _exact(v, alt) and conforms(v, alt)]
+            if allow_any:
+                continue  # an empty container was observed at this slot
+            return f"{path}: Any as a union alternative although no empty container was observed here"
+        mine = [v for v in values if _exact(v, alt) and conforms(v, alt)]
         if not mine:
             return f"{path}: alternative {show_type(alt)} not inhabited by any observed value"
-        r = _witness_inside(alt, mine, path)
-        if r:
-            return r
+        # The alternative must be exactly witnessed by SOME non-empty subset of the values it
+        # describes (alternatives of one container kind stem from different observed values,
+        # e.g. Union[Dict[Any, Any], Dict[int, str]] from {} and {0: 's'}).  A TypedDict
+        # alternative merges every str-keyed dict at the position, so it is judged on all of them.
+        if is_anon_td(alt) or len(mine) == 1 or len(mine) > 8:
+            subsets = [mine]
+        else:
+            subsets = [[v for i, v in enumerate(mine) if m >> i & 1] for m in range(2 ** len(mine) - 1, 0, -1)]
+        first = None
+        for sub in subsets:
+            r = _witness_inside(alt, sub, path)
+            if r is None:
+                break
+            first = first or r
+        else:
+            return first
     return None
 
 
@@ -331,12 +345,9 @@ def _witness_inside(alt, vals, path):
         if n in ("Type", "Callable", "Iterator"):
             return None  # atoms: contents are unobservable (interpretation recorded in DESIGN.md)
         if n in ("List", "Set"):
-            elems = [e for v in vals for e in v]
-            return _slot(a[0], elems, f"{path}[0]")
+            return _slot(a[0], [list(v) for v in vals], f"{path}[0]")
         if n in ("Dict", "DefaultDict"):
-            ks = [k for v in vals for k in v.keys()]
-            xs = [x for v in vals for x in v.values()]
-            return _slot(a[0], ks, f"{path}[0]") or _slot(a[1], xs, f"{path}[1]")
+            return _slot(a[0], [list(v.keys()) for v in vals], f"{path}[0]") or _slot(a[1], [list(v.values()) for v in vals], f"{path}[1]")
         if n == "Tuple":
             if len(a) == 2 and a[1] is Ellipsis:
                 return f"{path}: homogeneous Tuple[T, ...] is never inferred before rewriting"
@@ -348,13 +359,18 @@ def _witness_inside(alt, vals, path):
     return None
 
 
-def _slot(t, elems, path):
-    """An element/key/value slot: Any exactly when no element was observed there."""
+def _slot(t, per_container, path):
+    """An element/key/value slot shared by the containers `per_container` (one list of
+    elements per observed container).  `Any` is justified exactly by an empty container."""
+    elems = [e for c in per_container for e in c]
+    any_empty = any(len(c) == 0 for c in per_container)
     if t is Any:
-        return None if not elems else f"{path}: Any although {len(elems)} element(s) were observed"
+        if elems:
+            return f"{path}: Any although {len(elems)} element(s) were observed"
+        return None if any_empty else f"{path}: Any without an empty container"
     if not elems:
-        return f"{path}: {show_type(t)} although the container was empty"
-    return witnessed(t, elems, path)
+        return f"{path}: {show_type(t)} although every container here was empty"
+    return witnessed(t, elems, path, allow_any=any_empty)
 
 
 # ---------------------------------------------------------------- structural subtyping (C07)
